@@ -108,6 +108,9 @@ var c03asis string
 
 const c03outsider = 1000 // model number of a receiver that is nobody's deputy
 
+// hash ranks (position in byte order) leave room for the blocks the receiver mines during the run
+const c03rankStep = 1 << 20
+
 // c03scn is one scenario: world, the two nodes, the generated blocks, signature naming.
 type c03scn struct {
 	c       *Ctx
@@ -701,7 +704,7 @@ func (s *c03scn) mine() {
 	b = &c03blk{id: len(s.blks), blk: blk, hash: blk.Hash(), parent: parent.id, height: blk.Height(), miner: s.rself, valid: true}
 	s.describeSnapshot(b)
 	// rank of the new hash among the known ones
-	lo, hi := -1000, 1000*(len(s.blks)+2)
+	lo, hi := 0, c03rankStep*(len(s.blks)+2)
 	for _, x := range s.blks {
 		if bytes.Compare(x.hash[:], b.hash[:]) < 0 && x.rank > lo {
 			lo = x.rank
@@ -711,7 +714,7 @@ func (s *c03scn) mine() {
 		}
 	}
 	b.rank = (lo + hi) / 2
-	if b.rank == lo || b.rank < 0 {
+	if b.rank == lo {
 		c.Count("mine:no-rank-gap")
 		b.rank = lo + 1
 	}
@@ -842,7 +845,7 @@ func (s *c03scn) rankAll() {
 	}
 	sort.Slice(idx, func(i, j int) bool { return bytes.Compare(s.blks[idx[i]].hash[:], s.blks[idx[j]].hash[:]) < 0 })
 	for r, i := range idx {
-		s.blks[i].rank = 1000 * (r + 1)
+		s.blks[i].rank = c03rankStep * (r + 1)
 	}
 }
 
